@@ -21,8 +21,8 @@ def plan(tier, seed):
 
 
 def floors(tier):
-    return {"evaluations": 3000, "strata": ["no-bounds", "lower-only", "both-bounds-fit", "packing-exact-fit", "deeper-layer", "half-integer-targets", "tied-targets", "near-touching", "stale-nodes"],
-            "events": {"Force.compute": 2000, "removeOverlap": 3000}, "distinct_nontrivial": 300}
+    return {"evaluations": 1500, "strata": ["no-bounds", "lower-only", "both-bounds-fit", "packing-exact-fit", "deeper-layer", "half-integer-targets", "tied-targets", "near-touching", "stale-nodes"],
+            "events": {"Force.compute": 1000, "removeOverlap": 1500}, "distinct_nontrivial": 300}
 
 
 def worker(ctx, shard):
